@@ -49,7 +49,10 @@ func Prop() *core.Prop {
 		"h_history_inner", "h_history_tracked", "h_muc_invite", "h_muc_direct_invite", "h_muc_presence", "h_muc_join", "h_carbons", "h_caps",
 		"w2_helper_returned_value", "w2_helper_returned_error"}
 	for _, h := range helpers {
-		req = append(req, "helper_value:"+h.name, "helper_error:"+h.name)
+		req = append(req, "helper_value:"+h.name)
+		if h.name != "history.Handler.Fetch" { // its iterator has no way to report an error (Iter.err is never set)
+			req = append(req, "helper_error:"+h.name)
+		}
 	}
 	return &core.Prop{
 		ID:    "C09",
